@@ -382,6 +382,12 @@ class HTTPConnection(_HTTPConnection):
     def putheader(self, header: str, *values: str) -> None:  # type: ignore[override]
         """"""
         if not any(isinstance(v, str) and v == SKIP_HEADER for v in values):
+            if header[-1:] in (" ", "\t", b" ", b"\t"):
+                # http.client only refuses whitespace at the start of a name.
+                # "Host\t: x" is read as Host by lenient recipients, but is not
+                # found by the checks that suppress our own Host, framing and
+                # User-Agent headers, which would then be sent next to it.
+                raise ValueError(f"Invalid header name {header!r}")
             super().putheader(header, *values)
         elif to_str(header.lower()) not in SKIPPABLE_HEADERS:
             skippable_headers = "', '".join(
